@@ -1096,7 +1096,9 @@ func isDigit(r rune) bool {
 func allSpaceWithNewline(str string) bool {
 	var seenNewline = false
 	for _, ch := range str {
-		if !unicode.IsSpace(ch) {
+		// (only what the line joining rule treats as whitespace: a no-break space
+		// or a form feed is text.)
+		if !isSpaceEOL(ch) {
 			return false
 		}
 		if isEndOfLine(ch) {
